@@ -448,7 +448,8 @@ open Lean Elab Command in
                 f.write(f"# property {self.prop} tier {self.tier} seed {self.seed}\n")
                 for b in self.broken_obligations:
                     f.write(f"# BROKEN-OBLIGATION {b}\n")
-                for kind, req, out, exp, tag in (spec_v + [v for v in self.violations if v not in spec_v])[:200]:
+                other_v = [v for v in self.violations if v[0] not in ("impl∉spec", "driver-abort")]
+                for kind, req, out, exp, tag in (spec_v + other_v)[:200]:
                     f.write(f"# {kind} build={tag} impl=[{out}] expected=[{exp}]\n{req}\n")
             if spec_v:
                 print(f"VIOLATION property={self.prop} replay={replay}")
